@@ -458,6 +458,10 @@ func c16Gen(t *rapid.T) c16Case {
 	}
 	c.User = "user" + rapid.StringMatching(`[a-z0-9]{4,10}`).Draw(t, "user")
 	c.Pass = rapid.StringMatching(`[A-Za-z0-9]{12,40}`).Draw(t, "pass")
+	if rapid.IntRange(0, 7).Draw(t, "longsecret") == 0 {
+		// a JWT-sized token / a pass phrase: command lines beyond RFC 5321's 510 octets
+		c.Pass = strings.Repeat(c.Pass, rapid.SampledFrom([]int{12, 20, 40, 60}).Draw(t, "secretrepeat"))
+	}
 	c.Wrong = rapid.IntRange(0, 3).Draw(t, "wrong") == 0
 	c.Logger = rapid.SampledFrom([]string{"capture", "capture", "std", "json"}).Draw(t, "logger")
 	c.SendMsg = rapid.Bool().Draw(t, "sendmsg")
@@ -504,7 +508,7 @@ func c16Gen(t *rapid.T) c16Case {
 
 func TestC16(t *testing.T) {
 	rec := core.Rec("C16")
-	rec.Rule = "the real Client with WithDebugLog (auth-data logging not enabled) authenticates against the reference SASL servers with mechanisms {PLAIN, LOGIN (NOENC and over TLS), CRAM-MD5, XOAUTH2, SCRAM-SHA-1/-256 and PLUS over TLS 1.2/1.3}, random alphanumeric passwords/tokens of 12..40 characters, right or wrong password, and server scripts {success, 535 to the AUTH command, 535 / non-base64 challenge / unparsable reply line / disconnect at exchange step 1..3, LOGIN servers with their own wording of the two prompts (incl. the same prompt twice), unexpected extra challenge, disconnect at AUTH, disconnect right after a challenge or right after the EHLO reply so that the client's write of the secret-bearing line fails}; loggers: a capturing log.Logger, log.New (text) and log.NewJSON; optionally followed by a MAIL/RCPT/DATA transaction; one case in four (of the non-TLS ones) drives the exported smtp.Client API directly (NewClient, SetLogger, SetDebugLog, Auth with or without a prior Hello, Mail, Quit), optionally with Client.Close(), SetDebugLog(true) or another goroutine's NOOP happening between two steps of the exchange. " +
+	rec.Rule = "the real Client with WithDebugLog (auth-data logging not enabled) authenticates against the reference SASL servers with mechanisms {PLAIN, LOGIN (NOENC and over TLS), CRAM-MD5, XOAUTH2, SCRAM-SHA-1/-256 and PLUS over TLS 1.2/1.3}, random alphanumeric passwords/tokens of 12..40 characters (one in eight 150..2400 characters long, so that the SASL command lines exceed 510 octets), right or wrong password, and server scripts {success, 535 to the AUTH command, 535 / non-base64 challenge / unparsable reply line / disconnect at exchange step 1..3, LOGIN servers with their own wording of the two prompts (incl. the same prompt twice), unexpected extra challenge, disconnect at AUTH, disconnect right after a challenge or right after the EHLO reply so that the client's write of the secret-bearing line fails}; loggers: a capturing log.Logger, log.New (text) and log.NewJSON; optionally followed by a MAIL/RCPT/DATA transaction; one case in four (of the non-TLS ones) drives the exported smtp.Client API directly (NewClient, SetLogger, SetDebugLog, Auth with or without a prior Hello, Mail, Quit), optionally with Client.Close(), SetDebugLog(true) or another goroutine's NOOP happening between two steps of the exchange. " +
 		"Oracle: no log record (each Messages element, the formatted record, the stock loggers' bytes, every JSON string value) contains the password/token raw, in hex, or in base64 at any of the three alignments, nor any SASL response line that carries the secret or a proof derived from it (as recorded by the server); and the MAIL FROM line sent after authentication - in direct mode also after a FAILED exchange that left the connection usable - appears in the log (redaction window closed). " +
 		"Non-trivial: >= 2 client responses in the exchange or an abnormal end. Distinct by (mechanism, TLS, wrong password, script, logger, transaction, password)."
 	rec.Assumptions = []string{"passwords are alphanumeric so that JSON escaping cannot hide them", "the user name and the mechanism name are not secrets"}
